@@ -192,6 +192,9 @@ fn run_case_inner(c: &Case) -> RunResult {
     exec::CALLS.store(0, Ordering::SeqCst);
     exec::CONSUMED.store(0, Ordering::SeqCst);
     exec::RED_CALLS.store(0, Ordering::SeqCst);
+    for a in exec::AUX_CALLS.iter() {
+        a.store(0, Ordering::SeqCst);
+    }
     *exec::PANIC_AT.lock().unwrap() = c.panic_at;
     match &c.mode {
         Mode::Free(j) => {
